@@ -217,6 +217,19 @@ pub open spec fn nest_ok_docs(s: Seq<DocV>, unit: int) -> bool { forall|i: int| 
 pub proof fn lemma_tr_seq_assoc(a: Tr, b: Tr, c: Tr)
     ensures tr_seq(tr_seq(a, b), c) == tr_seq(a, tr_seq(b, c)), tr_seq(tr_id(), a) == a, tr_seq(a, tr_id()) == a,
 {}
+/// a concatenation of closed documents is closed
+pub proof fn lemma_cat_all_closed(s: Seq<DocV>, unit: int)
+    requires forall|i: int| 0 <= i < s.len() ==> doc_closed(#[trigger] s[i], unit),
+    ensures doc_closed(cat_all(s), unit),
+    decreases s.len(),
+{
+    reveal_with_fuel(tr, 3); reveal_with_fuel(nest_ok, 3); reveal_with_fuel(cat_all, 2);
+    if s.len() > 0 {
+        assert forall|i: int| 0 <= i < s.drop_last().len() implies doc_closed(#[trigger] s.drop_last()[i], unit) by { assert(s.drop_last()[i] == s[i]); }
+        lemma_cat_all_closed(s.drop_last(), unit);
+        assert(doc_closed(s.last(), unit));
+    }
+}
 pub proof fn lemma_cat_all(s: Seq<DocV>, flat: bool, unit: int)
     ensures tr(cat_all(s), flat) == tr_docs(s, flat), nest_ok(cat_all(s), unit) == nest_ok_docs(s, unit),
     decreases s.len(),
